@@ -335,7 +335,7 @@ def parse_facebook_url(url, allow_relative_urls=False):
     if "/videos/" in splitted.path:
         parts = pathsplit(splitted.path)
 
-        if len(parts) < 3:
+        if len(parts) < 3 or not parts[0] or not parts[2]:
             return None
 
         return FacebookVideo(parts[2], parent_id=parts[0])
@@ -371,7 +371,7 @@ def parse_facebook_url(url, allow_relative_urls=False):
     if "/photos/" in splitted.path:
         parts = pathsplit(splitted.path)
 
-        if len(parts) < 4:
+        if len(parts) < 4 or not parts[0] or not parts[2] or not parts[3]:
             return None
 
         parent_id_or_handle = parts[0]
@@ -392,7 +392,7 @@ def parse_facebook_url(url, allow_relative_urls=False):
         parts = pathsplit(splitted.path)
 
         if parts[0] == "groups":
-            if len(parts) < 4:
+            if len(parts) < 4 or not parts[1] or not parts[3]:
                 return None
 
             group_id_or_handle = parts[1]
@@ -403,7 +403,7 @@ def parse_facebook_url(url, allow_relative_urls=False):
                 return FacebookPost(parts[3], group_id=group_id_or_handle)
             return FacebookPost(parts[3], group_handle=group_id_or_handle)
 
-        if len(parts) < 3:
+        if len(parts) < 3 or not parts[0] or not parts[2]:
             return None
 
         parent_id_or_handle = parts[0]
@@ -433,7 +433,7 @@ def parse_facebook_url(url, allow_relative_urls=False):
             return None
 
         if "/permalink/" in splitted.path:
-            if len(parts) < 4:
+            if len(parts) < 4 or not parts[3]:
                 return None
 
             if is_facebook_id(parts[1]):
@@ -460,7 +460,7 @@ def parse_facebook_url(url, allow_relative_urls=False):
     if splitted.path.startswith("/people"):
         parts = pathsplit(splitted.path)
 
-        if len(parts) < 3:
+        if len(parts) < 3 or not parts[2]:
             return None
 
         user_id = parts[2]
